@@ -113,7 +113,7 @@ def run_partition(args):
     # replay every violation natively (no proxies, no patches)
     seen = set()
     for v in ex.violations:
-      key = (v.aid, json.dumps(v.detail, sort_keys=True, default=str))
+      key = (v.aid, json.dumps({k: x for k, x in v.detail.items() if not str(k).startswith("_")} if isinstance(v.detail, dict) else v.detail, sort_keys=True, default=str))
       if key in seen:
         continue
       seen.add(key)
@@ -316,7 +316,8 @@ def report(prop, tier, seed, harnesses, results, extra, wall):
     print("KNOWN-FINDING: property=%s %s [%s]" % (prop, k["what"], kid))
   seen_sig = set()
   for r, v in new_viol:
-    sig = (r["harness"], v["assertion"], json.dumps(v.get("detail"), sort_keys=True, default=str))
+    dd = v.get("detail")
+    sig = (r["harness"], v["assertion"], json.dumps({k: x for k, x in dd.items() if not str(k).startswith("_")} if isinstance(dd, dict) else dd, sort_keys=True, default=str))
     if sig in seen_sig:
       continue
     seen_sig.add(sig)
